@@ -17,6 +17,7 @@ HJ = {"ChainID": "ChainID", "PrevBlockHash": "Prev", "BlockNo": "BlockNo", "Time
 HINT = {"BlockNo": "u64", "Confirms": "u64", "Timestamp": "i64"}
 TX_FIELDS = ["Nonce", "Account", "Recipient", "Amount", "Payload", "GasLimit", "GasPrice", "Type", "ChainIdHash", "Sign"]
 TINT = {"Nonce": "u64", "GasLimit": "u64", "Type": "i32"}
+TX_TYPES = list(range(0, 8))   # NORMAL GOVERNANCE REDEPLOY FEEDELEGATION TRANSFER CALL DEPLOY MULTICALL
 
 
 class State:
@@ -96,10 +97,12 @@ def rbytes(rng, n):
 
 def rlen(rng, typical):
     r = rng.random()
-    if r < 0.55:
+    if r < 0.5:
         return typical
-    if r < 0.7:
+    if r < 0.6:
         return 0
+    if r < 0.8:
+        return rng.choice([1, 31, 32, 33, 34, 64, 65, 255, 256, 257])      # boundary lengths
     return rng.randrange(0, 41)
 
 
@@ -123,7 +126,7 @@ def rand_header(rng):
 def rand_tx(rng):
     return {"Nonce": rint(rng, "u64"), "Account": rbytes(rng, rlen(rng, 33)), "Recipient": rbytes(rng, rlen(rng, 33)),
             "Amount": rbytes(rng, rlen(rng, 8)), "Payload": rbytes(rng, rlen(rng, 10)), "GasLimit": rint(rng, "u64"),
-            "GasPrice": rbytes(rng, rlen(rng, 4)), "Type": rint(rng, "i32"), "ChainIdHash": rbytes(rng, rlen(rng, 32)),
+            "GasPrice": rbytes(rng, rlen(rng, 4)), "Type": rng.choice(TX_TYPES) if rng.random() < 0.7 else rint(rng, "i32"), "ChainIdHash": rbytes(rng, rlen(rng, 32)),
             "Sign": rbytes(rng, rlen(rng, 70))}
 
 
@@ -219,7 +222,7 @@ def tx_corpus():
     a = dict(z, Nonce=2 ** 64 - 1, Account=b"\x02" + bytes(32), Recipient=b"aergo.system", Amount=b"\x0d\xe0\xb6\xb3\xa7\x64\x00\x00",
              Payload=b'{"Name":"v1stake"}', GasLimit=2 ** 64 - 1, GasPrice=b"\x01", Type=-2 ** 31, ChainIdHash=bytes(range(32)), Sign=b"\x30" * 71)
     b = dict(a, Type=2 ** 31 - 1, Nonce=1)
-    return [z, a, b]
+    return [z, a, b] + [dict(a, Type=t, Nonce=t + 1) for t in TX_TYPES]
 
 
 def run_types_engine(ctx, st):
@@ -782,6 +785,20 @@ def chainid_family(ctx, st):
     for _ in range(10 if quick else 200):
         mcs.append((rbytes(rng, rng.choice([0, 1, 3, 4, 5, 20])), rng.choice([0, 1, 2, 3, 5, -1, 2 ** 31 - 1])))
     cases += [{"kind": "MC", "raw": r.hex(), "v": v} for r, v in mcs]
+    # ChainID.Equals / ChainIdEqualWithoutVersion: a chain id against itself and against single-field variants
+    ces = []
+    for c in cids[:12] + [rng.choice(cids) for _ in range(6 if quick else 120)]:
+        for f in ("same", "v", "p", "m", "magic", "cons"):
+            d = dict(c)
+            if f == "v":
+                d["v"] = c["v"] + 1 if c["v"] < 2 ** 31 - 1 else 0
+            elif f in ("p", "m"):
+                d[f] = not c[f]
+            elif f in ("magic", "cons"):
+                d[f] = mutate_bytes(rng, c[f])
+            ces.append((c, d, f))
+    jc = lambda c: {"Version": c["v"], "Public": c["p"], "Main": c["m"], "Magic": c["magic"].hex(), "Consensus": c["cons"].hex()}
+    cases += [{"kind": "CE", "cid": jc(a), "raw": json.dumps(jc(b))} for a, b, f in ces]
     obs = run_engine(ctx, st.types_bin, "TestVerifCodecEngine", cases, "chainid")
 
     def dec_term(o):
@@ -814,7 +831,25 @@ def chainid_family(ctx, st):
         st.nontrivial.add(("CR", "dec" in o, min(len(r), 7)))
         if "dec_panic" in o:
             st.fail("C19:chainid-read-panic", "ChainID.Read panicked", {"raw": r.hex(), "obs": o})
-    for (r, v), o in zip(mcs, obs[len(cids) + len(raws):]):
+    eitems, esrc = [], []
+    for (a, b, f), o in zip(ces, obs[len(cids) + len(raws) + len(mcs):]):
+        rep = {"a": {k: (v.hex() if isinstance(v, bytes) else v) for k, v in a.items()}, "b": {k: (v.hex() if isinstance(v, bytes) else v) for k, v in b.items()},
+               "field": f, "obs": o}
+        if o["equals"] != (f == "same") or o["equals_sym"] != o["equals"] or o["equals_nil"]:
+            st.fail("C19:chainid-equals", "ChainID.Equals is wrong for two ids differing in %s (or asymmetric / true for nil)" % f, rep)
+        if o["equal_without_version"] != (f in ("same", "v")):
+            st.fail("C19:chainid-equal-without-version", "ChainIdEqualWithoutVersion is wrong for two ids differing in %s" % f, rep)
+        if not o["validate_ok"]:
+            st.fail("C19:genesis-validate", "Genesis.Validate rejects a chain id", rep)
+        eitems.append("(%s, %s, %s, %s)" % (coq_cid(a), coq_cid(b), cbool(o["equals"]), cbool(o["equal_without_version"])))
+        esrc.append(rep)
+        st.nontrivial.add(("CE", f))
+    st.add_family("chain_id_equals", "(N * bool * bool * bytes * bytes) * (N * bool * bool * bytes * bytes) * bool * bool",
+                  "(fun c : (N * bool * bool * bytes * bytes) * (N * bool * bool * bytes * bytes) * bool * bool => "
+                  "let '((v1, p1, m1, g1, c1), (v2, p2, m2, g2, c2), eq, eqv) := c in "
+                  "let a := mk_chain_id v1 p1 m1 g1 c1 in let b := mk_chain_id v2 p2 m2 g2 c2 in "
+                  "Bool.eqb (chain_id_eqb a b) eq && Bool.eqb (chain_id_equal_without_version (chain_id_bytes a) (chain_id_bytes b)) eqv)", eitems, esrc)
+    for (r, v), o in zip(mcs, obs[len(cids) + len(raws):len(cids) + len(raws) + len(mcs)]):
         if o.get("raw_after") != r.hex():
             st.fail("C19:makechainid-writes-to-argument", "MakeChainId wrote into the caller's chain id slice",
                     {"cid": r.hex(), "v": v, "cid_after": o.get("raw_after"), "returned": o.get("make")})
@@ -1230,11 +1265,66 @@ def store_family(ctx, st):
                     "hardfork configuration stored by WriteHardfork or as raw JSON (missing / extra / changed keys) and read by Hardfork+CheckCompatibility")
 
 
-EXTRA_FAMILIES = [corpus_family, receipts_family, merkle_family, hardfork_family, txsign_family, chainid_family, txroot_family, genesis_family, genesis_store_family, store_family, forkboundary_family]
-EXTRA_TARGETS = ["Common/Sha256.vo", "Common/Lit.vo", "Codec/Receipt.vo", "Codec/Merkle.vo", "Codec/Hardfork.vo", "Codec/TxRoot.vo", "Codec/GenesisStore.vo", "Codec/ChainStore.vo"]  # evaluated models that no theorem depends on
+# ------------------------------------------------------------------ event bloom filters (package state + types)
+def bloom_family(ctx, st):
+    rng = ctx.rng
+    quick = ctx.tier == "quick"
+    binpath = build_engine(ctx, "state", ["zz_verif_bloom_engine_test.go"], "codec_state.test")
+    cases = []
+    pool_addr = [bytes([2]) + rbytes(rng, 32) for _ in range(4)] + [bytes([0x80]) + b"name" + bytes(28)]   # well-formed event addresses only
+    probe_addr = pool_addr + [b"", b"\x00" * 33]
+    pool_name = [b"transfer", b"mint", b"", b"x", rbytes(rng, 40), b"transfer "]
+    shapes = [[0], [1], [2, 0, 1], [0, 0], [3, 3], [1, 0, 0, 2, 5]] + [[rng.randrange(0, 4) for _ in range(rng.randrange(0, 5))] for _ in range(6 if quick else 150)]
+    for shape in shapes:
+        rs = [[{"Addr": rng.choice(pool_addr).hex(), "Name": rng.choice(pool_name).hex()} for _ in range(n)] for n in shape]
+        probes = [e for r in rs for e in r] + [{"Addr": rng.choice(probe_addr).hex(), "Name": rng.choice(pool_name).hex()} for _ in range(3)] \
+            + [{"Addr": rbytes(rng, 33).hex(), "Name": rbytes(rng, 6).hex()} for _ in range(2)]
+        cases.append({"receipts": rs, "probes": probes})
+    obs = run_engine(ctx, binpath, "TestVerifBloomEngine", cases, "bloom")
+    items, src = [], []
+    for c, o in zip(cases, obs):
+        rep = {"case": c, "obs": {k: v for k, v in o.items() if k not in ("singles", "blooms", "blooms2", "block", "block2")}}
+        if "panic" in o or "add_err" in o or "enc_err" in o or "dec_err" in o:
+            st.fail("C19:bloom-engine-error", "AddReceipt / receipts codec failed on a receipt with events", rep)
+            continue
+        st.nontrivial.add(("BL", tuple(min(len(r), 3) for r in c["receipts"])[:4]))
+        # direct predicates: no false negative for any event, receipt-level and block-level, before and after the store round trip
+        pi = 0
+        for ri, r in enumerate(c["receipts"]):
+            for e in r:
+                for tag in ("", "2"):
+                    if not o["answers" + tag][pi][ri]:
+                        st.fail("C19:bloom-false-negative", "an event's contract address / name is not found through its receipt's bloom filter%s"
+                                % (" after the store round trip" if tag else ""), rep)
+                    if not o["block_answers" + tag][pi]:
+                        st.fail("C19:bloom-false-negative", "an event's contract address / name is not found through the block's bloom filter%s"
+                                % (" after the store round trip" if tag else ""), rep)
+                pi += 1
+        for ri, r in enumerate(c["receipts"]):
+            if (len(o["blooms"][ri]) // 2) != (256 if r else 0):
+                st.fail("C19:bloom-length", "receipt bloom is not 256 bytes for a receipt with events / not empty without", rep)
+        if o["blooms2"] != o["blooms"] or o["block2"] != o["block"] or o["answers2"] != o["answers"] or o["block_answers2"] != o["block_answers"]:
+            st.fail("C19:bloom-roundtrip", "bloom filters or their answers change across the receipts store round trip", rep)
+        tbl = "[" + "; ".join("(%s, %s)" % (cb(hb(k)), cb(hb(v))) for k, v in sorted(o["singles"].items())) + "]"
+        rsl = "[" + "; ".join("[" + "; ".join("(%s, %s)" % (cb(hb(e["Addr"])), cb(hb(e["Name"]))) for e in r) + "]" for r in c["receipts"]) + "]"
+        rbl = "[" + "; ".join(cb(hb(b)) for b in o["blooms"]) + "]"
+        bb = "(Some %s)" % cb(hb(o["block"])) if o["has_block"] else "None"
+        pr = "[" + "; ".join("(%s, %s, [%s], %s)" % (cb(hb(p["Addr"])), cb(hb(p["Name"])), "; ".join(cbool(x) for x in a), cbool(b))
+                              for p, a, b in zip(c["probes"], o["answers"], o["block_answers"])) + "]"
+        items.append("(%s, %s, %s, %s, %s)" % (tbl, rsl, rbl, bb, pr))
+        src.append(rep)
+    st.add_family("bloom", "list (bytes * bytes) * list (list (bytes * bytes)) * list bytes * option bytes * list (bytes * bytes * list bool * bool)",
+                  "bloom_case_ok", items, src)
+    st.rules.append("bloom: receipts with 0..5 events (shared / empty / all-zero addresses, empty and near-duplicate names) through the real "
+                    "BlockState.AddReceipt; receipt and block filters byte-exact against the OR of the implementation's single-key filters, "
+                    "Receipt.BloomFilter / Receipts.BloomFilter answers for every event and for foreign probes, before and after the store round trip")
+
+
+EXTRA_FAMILIES = [corpus_family, receipts_family, merkle_family, hardfork_family, txsign_family, chainid_family, txroot_family, genesis_family, genesis_store_family, store_family, forkboundary_family, bloom_family]
+EXTRA_TARGETS = ["Common/Sha256.vo", "Common/Lit.vo", "Codec/Receipt.vo", "Codec/Merkle.vo", "Codec/Hardfork.vo", "Codec/TxRoot.vo", "Codec/GenesisStore.vo", "Codec/ChainStore.vo", "Codec/Bloom.vo"]  # evaluated models that no theorem depends on
 
 IMPORTS = """From Coq Require Import NArith ZArith List Bool String Uint63.
-From Verif Require Import Common.Bytes Common.Lit Common.Sha256 Codec.Fields Codec.Digest Codec.ChainId Codec.Merkle Codec.TxRoot Codec.Receipt Codec.Hardfork Codec.GenesisStore Codec.ChainStore Codec.ReceiptProofs %s.
+From Verif Require Import Common.Bytes Common.Lit Common.Sha256 Codec.Fields Codec.Digest Codec.ChainId Codec.Merkle Codec.TxRoot Codec.Receipt Codec.Hardfork Codec.GenesisStore Codec.ChainStore Codec.ReceiptProofs Codec.Bloom %s.
 Import ListNotations.
 Open Scope N_scope.
 """
